@@ -1,0 +1,17 @@
+//go:build verif
+
+package s2
+
+// Export hooks for property C03 (edge crossings, EdgeCrosser state).
+// Compiled only with the build tag "verif"; thin wrappers, no behaviour.
+
+import "math"
+
+// VerifCrosserState returns the private fields of an EdgeCrosser.
+func VerifCrosserState(e *EdgeCrosser) (a, b, aXb, aTangent, bTangent, c Point, acb Direction) {
+	return e.a, e.b, e.aXb, e.aTangent, e.bTangent, e.c, e.acb
+}
+
+// VerifC03MaxError re-evaluates the expression of the local variable maxError of
+// (*EdgeCrosser).crossingSign (it is not reachable otherwise).
+func VerifC03MaxError() float64 { return (1.5 + 1/math.Sqrt(3)) * dblEpsilon }
